@@ -319,30 +319,33 @@ def simulate (out : IO.FS.Stream) (K : ConstsR Float) (n every : Nat) (s0 : Stat
     if k % every == 0 || k == n then
       for l in showStateR s do out.putStrLn l
     if k < n then
-      let ok := stepOkR fn fx K s
+      -- `meshStage`, `refineLiveR` and the log are evaluated once each; `stepOkR` / `cellIterationR` are, by definition,
+      -- `stepOkFrom … live ms` and `ms.map (forceStage fx K)`
       let live := refineLiveR fn K s
-      let (rebased, log) : Bool × List (Bool × Nat × Nat × Float) :=
+      let ms := meshStage fn K s
+      let ok := stepOkFrom fx K s live ms
+      let (rebased, c0?) : Bool × Option (Remesh.Cell Float) :=
         match saveMesh fn K s with
-        | .ok s1 => (s1.fileNo != s.fileNo, refineLog fn K (faceTypes K s1.cell))
-        | .error _ => (false, [])
-      let mOk := match meshStage fn K s with | .ok s1 => meshOk s1.cell | .error _ => false
+        | .ok s1 => (s1.fileNo != s.fileNo, some (faceTypes K s1.cell))
+        | .error _ => (false, none)
+      let log : List (Bool × Nat × Nat × Float) := match c0? with | some c0 => refineLog fn K c0 | none => []
+      let mOk := match ms with | .ok s1 => meshOk s1.cell | .error _ => false
       let ns := (log.filter (fun e => e.1)).length
       -- executed swaps of the swap pass: every swap rewrites two face slots
       let swaps : Nat :=
         if K.swapOn then
-          match saveMesh fn K s with
-          | .ok s1 =>
-            let c0 := faceTypes K s1.cell
+          match c0? with
+          | some c0 =>
             match removeElongated fn (Gen.refineConsts fn) c0 with
             | .ok c1 => ((List.range c0.faces.size).filter (fun i =>
                 match c0.faces[i]?, c1.faces[i]? with
                 | some f, some g => f.n1 != g.n1 || f.n2 != g.n2 || f.n3 != g.n3
                 | _, _ => false)).length / 2
             | .error _ => 0
-          | .error _ => 0
+          | none => 0
         else 0
       out.putStrLn s!"D {s.iter} {b01 ok} {b01 live} {b01 mOk} {ns} {log.length - ns} {b01 rebased} {swaps}"
-      match cellIterationR fn fx K s with
+      match ms.map (forceStage fx K) with
       | .ok s' => s := s'
       | .error e =>
         out.putStrLn s!"X {e.name}"
